@@ -91,7 +91,7 @@ void dispatch(uint8_t sel, const std::string& doc, uint8_t cfg, const Serializat
 		case 18: load<std::vector<std::u16string>>(doc, cfg, o); break;
 		case 19: load<std::vector<TimeNs>>(doc, cfg, o); break;
 		case 20: load<std::vector<std::chrono::milliseconds>>(doc, cfg, o); break;
-		case 21: load<std::map<FzColor, std::vector<float>>>(doc, cfg, o); break;
+		case 21: if (cfg & 0x80) load<std::map<FzColor, std::vector<float>>>(doc, cfg, o); else if (cfg & 0x40) load<std::bitset<130>>(doc, cfg, o); else load<std::vector<std::bitset<9>>>(doc, cfg, o); break;
 		case 22: case 23: case 24: case 25: { Val t = dyn_shape(sel % kSelCount - 22); dyn::Root r{ &t }; load_into(r, doc, cfg, o); break; }
 		default:
 			if constexpr (FZ_ARCH != XML) {   // the XML archive has no scalar root
@@ -116,6 +116,7 @@ void vf_write_seeds(const std::string& dir) {
 		put(4, 0, doc_of(std::map<int, std::string>{ { -1, "m" }, { 70000, "p" } })); put(5, 0, doc_of(std::vector<std::tuple<int, std::string, double>>{ { 1, "x", 2.5 } })); put(6, 0, doc_of(std::vector<std::array<int, 3>>{ { 1, 2, 3 } })); put(8, 0, doc_of(std::vector<In>(2)));
 		put(14, 0, doc_of(std::vector<std::optional<int64_t>>{ 1, std::nullopt, -5 })); put(15, 0, doc_of(std::set<std::string>{ "a", "b" })); put(16, 0, doc_of(std::deque<double>{ 0.5, -1e300 })); put(17, 0, doc_of(std::vector<bool>{ true, false })); put(19, 0, doc_of(std::vector<TimeNs>{ c.tp })); put(20, 0, doc_of(std::vector<std::chrono::milliseconds>{ std::chrono::milliseconds(1500) }));
 		if constexpr (FZ_ARCH == MSGPACK) { put(7, 0, doc_of(std::vector<uint8_t>{ 1, 2, 3 })); put(9, 0, doc_of(std::map<double, int>{ { 0.5, 1 } })); put(10, 0, doc_of(std::map<TimeS, int>{ { TimeS(std::chrono::seconds(5)), 1 } })); put(11, 0, doc_of(std::vector<std::vector<uint8_t>>{ { 1 }, { 2, 3 } })); }
+		{ std::bitset<130> bs; bs.set(1); bs.set(129); put(21, 0x40, doc_of(bs)); put(21, 0, doc_of(std::vector<std::bitset<9>>(2))); put(21, 0x40, doc_of(std::vector<bool>(300, true))); put(21, 0x80, doc_of(std::map<std::string, std::vector<float>>{ { "Red", { 1.5f } } })); }
 		// numeric extremes into targets of another width / kind
 		put(16, 0, doc_of(std::vector<uint64_t>{ UINT64_MAX, uint64_t(1) << 63, 9007199254740993ull })); put(16, 3, doc_of(std::vector<int64_t>{ INT64_MIN, INT64_MAX })); put(21, 0, doc_of(std::map<std::string, std::vector<uint64_t>>{ { "Red", { UINT64_MAX, 16777217 } }, { "Blue", { 0 } } }));
 		put(1, 0, doc_of(std::vector<double>{ 1e300, -1e300, 2147483648.0, -0.5 })); put(1, 3, doc_of(std::vector<uint64_t>{ UINT64_MAX, 2147483648ull })); put(20, 0, doc_of(std::vector<int64_t>{ INT64_MIN, INT64_MAX, -1 })); put(19, 0, doc_of(std::vector<std::string>{ "+292277026596-12-04T15:30:07Z", "1677-09-21T00:12:43.145224192Z" }));
